@@ -15,3 +15,22 @@ func (rm *RpcMultiplexer) VerifReadErr() error {
 	defer rm.mutex.Unlock()
 	return rm.rErr
 }
+
+// VerifTryReadErr is VerifReadErr without waiting: ok is false when the
+// multiplexer's mutex is held (e.g. by a read loop blocked on a slow consumer).
+func (rm *RpcMultiplexer) VerifTryReadErr() (err error, ok bool) {
+	if !rm.mutex.TryLock() {
+		return nil, false
+	}
+	defer rm.mutex.Unlock()
+	return rm.rErr, true
+}
+
+// VerifTryRegistrySize is VerifRegistrySize without waiting.
+func (rm *RpcMultiplexer) VerifTryRegistrySize() (n int, ok bool) {
+	if !rm.mutex.TryLock() {
+		return 0, false
+	}
+	defer rm.mutex.Unlock()
+	return len(rm.handlers), true
+}
